@@ -2,5 +2,8 @@ CLAIMED = {
  'C14': dict(
    text='Proof: for every path string the Lean model of sys::clean never panics and equals Go path.Clean (six documented rules as a stack fold); corollaries idempotence, absoluteness preserved, never empty, normal form = fixed points. The model is tied to the Rust code by an exhaustive differential run (all strings over {/,.,a,b} up to length 8 quick / 11 thorough, plus random wide-alphabet strings) on every check.',
    note='Trusted: Lean kernel, axioms propext/Classical.choice/Quot.sound, the hand transcription of clean + std::path::Components/PathBuf::push/pop (validated by the correspondence run, not proved), harness and Python driver. UTF-8 paths only.'),
+ 'C16': dict(
+   text='Proof: for all clean absolute paths p != b (any number of components, any well-formed names) relative(p,b) is exactly (|b|-k) x ".." followed by the components of p below the common prefix (k), is a relative path, and cleaning b joined with it yields p; for p == b the result is p and the join still yields p. Tied to the Rust code by the exhaustive pair enumeration (121^2 pairs) plus random deeper pairs on every check; the judge compares the implementation with an independently computed shape and navigation target.',
+   note='Trusted: Lean kernel, axioms propext/Classical.choice/Quot.sound, hand transcription of relative + std Components/push (validated by the correspondence run), harness and Python driver.'),
 }
 NOT_YET = {}
